@@ -1,4 +1,5 @@
 import SigpyVerif.Model.C15
+import SigpyVerif.Props.C13
 import Mathlib.Analysis.InnerProductSpace.Basic
 import Mathlib.Tactic.Ring
 import Mathlib.Tactic.Linarith
@@ -11,6 +12,12 @@ import Mathlib.Tactic.Positivity
   `C15.runLoop / ctrUpdate`; the fixed-point theorems are about the transcribed `_update`s of
   `Model/C15.lean`, which the correspondence check compares with the real classes update by update.
   (`early_stop_fixed` for ConjugateGradient is `C12.cg_early_stop_fixed` in Props/C12.lean.)
+  PDHG in every variant (γ_primal > 0, γ_dual > 0, constant θ; scalar or array-valued steps):
+  `early_stop_fixed_pdhg_general` is about `pdhgUpdateG` = C13's translator-generated `pdStep` + the residual
+  formulas regenerated from the source (`Gen.C15.*`), at `P = D = C13.StepOp` (a step is the positive operator it
+  acts as); it goes through `C13.pdhg_fixed_point_iff_saddle_diag`: resid = 0 ⇒ saddle point ⇒ fixed point of the
+  update with ANY positive steps, in particular the rescaled ones.  NewtonsMethod with the backtracking line
+  search: `early_stop_fixed_newton_ls` (loop with fuel; `newton_ls_backtracks` shows the loop does iterate).
 -/
 namespace SigpyVerif.C15
 
@@ -302,6 +309,192 @@ theorem early_stop_fixed_newton (gradf : E → E) (invH : E → E → E)
 
 end fixed
 
+/-! ### PDHG with every branch of the step-size block and scalar or array steps; Newton with line search -/
+section general
+open SigpyVerif.C13
+variable {E F : Type} [NormedAddCommGroup E] [InnerProductSpace ℝ E] [NormedAddCommGroup F] [InnerProductSpace ℝ F]
+
+/-- `norm(v / T**0.5)**2` for a (scalar or array) step `T`: `Σ_i |v_i|²/τ_i = ⟨T⁻¹v, v⟩` -/
+noncomputable def wn {G : Type} [NormedAddCommGroup G] [InnerProductSpace ℝ G] (T : StepOp G) (v : G) : ℝ :=
+  inner ℝ (T.inv v) v
+
+theorem theta_pos_of_nonneg (γ m : ℝ) (hγ : 0 < γ) (hm : 0 ≤ m) :
+    0 < ((1 : ℕ) : ℝ) / Real.sqrt (((1 : ℕ) : ℝ) + ((2 : ℕ) : ℝ) * γ * m) := by
+  have : (0 : ℝ) < ((1 : ℕ) : ℝ) + ((2 : ℕ) : ℝ) * γ * m := by
+    have := mul_nonneg hγ.le hm
+    push_cast; nlinarith
+  have h2 := Real.sqrt_pos.mpr this
+  positivity
+
+/-- whatever branch the step-size block takes, positive steps stay positive
+    (`tau_min`, `sigma_min` are minima of absolute values, hence `≥ 0`) -/
+theorem pdRescale_steps_pos (γp γd θ0 : ℝ) (τ : StepOp E) (σ : StepOp F) (tm sm : ℝ) (hτ : τ.Pos) (hσ : σ.Pos)
+    (htm : 0 ≤ tm) (hsm : 0 ≤ sm) :
+    (pdRescale Real.sqrt γp γd θ0 τ σ tm sm : Rescale ℝ (StepOp E) (StepOp F)).tau.Pos ∧
+    (pdRescale Real.sqrt γp γd θ0 τ σ tm sm : Rescale ℝ (StepOp E) (StepOp F)).sigma.Pos := by
+  unfold pdRescale
+  split_ifs with h1 h2
+  · have hθ := theta_pos_of_nonneg γp tm (by simpa using h1.1) htm
+    exact ⟨hτ.smul hθ, hσ.div hθ⟩
+  · have hθ := theta_pos_of_nonneg γd sm (by simpa using h2.2) hsm
+    exact ⟨hτ.div hθ, hσ.smul hθ⟩
+  · exact ⟨hτ, hσ⟩
+
+set_option linter.unusedTactic false in
+set_option linter.unreachableTactic false in
+/-- **PDHG, general** (γ_primal > 0, γ_dual > 0 or constant θ; scalar or array-valued positive steps):
+    `resid <= 0` means `x_new = x_old = x_ext_old` and `u_new = u_old` (all three weighted norms vanish), so
+    `(x, u)` is a saddle point (`C13.pdhg_fixed_point_iff_saddle_diag`), and the NEXT `update()` — which runs
+    with the RESCALED steps — changes neither `x` nor `u`. -/
+theorem early_stop_fixed_pdhg_general (g : E → ℝ) (fc : F → ℝ) (A : E → F) (AH : F → E)
+    (proxfc : StepOp F → F → F) (proxg : StepOp E → E → E) (hg : ProxOfW g proxg) (hfc : ProxOfW fc proxfc)
+    (γp γd θ0 : ℝ) (s : PDState ℝ E F (StepOp E) (StepOp F)) (hτ : s.tau.Pos) (hσ : s.sigma.Pos)
+    (htm : 0 ≤ s.tau_min) (hsm : 0 ≤ s.sigma_min)
+    (h : (pdhgUpdateG Real.sqrt wn wn A AH proxfc proxg γp γd θ0 s).2 ≤ 0) :
+    (pdhgUpdateG Real.sqrt wn wn A AH proxfc proxg γp γd θ0
+        (pdhgUpdateG Real.sqrt wn wn A AH proxfc proxg γp γd θ0 s).1).1.x =
+      (pdhgUpdateG Real.sqrt wn wn A AH proxfc proxg γp γd θ0 s).1.x ∧
+    (pdhgUpdateG Real.sqrt wn wn A AH proxfc proxg γp γd θ0
+        (pdhgUpdateG Real.sqrt wn wn A AH proxfc proxg γp γd θ0 s).1).1.u =
+      (pdhgUpdateG Real.sqrt wn wn A AH proxfc proxg γp γd θ0 s).1.u ∧
+    IsSaddle g fc A AH (pdhgUpdateG Real.sqrt wn wn A AH proxfc proxg γp γd θ0 s).1.x
+      (pdhgUpdateG Real.sqrt wn wn A AH proxfc proxg γp γd θ0 s).1.u := by
+  have e1 : ∀ t, (pdhgUpdateG Real.sqrt wn wn A AH proxfc proxg γp γd θ0 t).1
+      = pdStep Real.sqrt A AH proxfc proxg γp γd θ0 t := fun _ => rfl
+  simp only [e1]
+  set s' := pdStep Real.sqrt A AH proxfc proxg γp γd θ0 s with hs'
+  have hpos := pdRescale_steps_pos γp γd θ0 s.tau s.sigma s.tau_min s.sigma_min hτ hσ htm hsm
+  have hτ' : s'.tau.Pos := hpos.1
+  have hσ' : s'.sigma.Pos := hpos.2
+  -- the three terms of the residual
+  have hr : (pdhgUpdateG Real.sqrt wn wn A AH proxfc proxg γp γd θ0 s).2
+      = Gen.C15.pdResid2 wn (Gen.C13.pdXDiff s'.x s.x) (Gen.C15.pdXExtDiff s.x_ext s.x) s'.tau
+          (Gen.C15.pdResidDual2 wn s'.u s.u s.sigma) := rfl
+  rw [hr] at h
+  simp only [Gen.C15.pdResid2, Gen.C15.pdResidDual2, Gen.C15.pdXExtDiff, Gen.C13.pdXDiff, wn] at h
+  -- each weighted norm is >= 0 (either orientation of the differences, any order of the sum in the source)
+  have n1 := hτ'.nonneg (s'.x - s.x)
+  have n1' := hτ'.nonneg (s.x - s'.x)
+  have n2 := hτ'.nonneg (s.x_ext - s.x)
+  have n2' := hτ'.nonneg (s.x - s.x_ext)
+  have n3 := hσ.nonneg (s'.u - s.u)
+  have n3' := hσ.nonneg (s.u - s'.u)
+  have hx : s'.x = s.x := by
+    first
+      | exact sub_eq_zero.mp (hτ'.eq_zero (by linarith))
+      | exact (sub_eq_zero.mp (hτ'.eq_zero (by linarith))).symm
+  have he : s.x_ext = s.x := by
+    first
+      | exact sub_eq_zero.mp (hτ'.eq_zero (by linarith))
+      | exact (sub_eq_zero.mp (hτ'.eq_zero (by linarith))).symm
+  have hu : s'.u = s.u := by
+    first
+      | exact sub_eq_zero.mp (hσ.eq_zero (by linarith))
+      | exact (sub_eq_zero.mp (hσ.eq_zero (by linarith))).symm
+  have hxe' : s'.x_ext = s'.x := by
+    rw [hs', pdStepW_x_ext, ← hs', hx]; simp
+  have hfix : s'.x = s.x ∧ s'.u = s.u ∧ s'.x_ext = s.x_ext := ⟨hx, hu, by rw [hxe', hx, he]⟩
+  have hsad : IsSaddle g fc A AH s.x s.u :=
+    (pdhg_fixed_point_iff_saddle_diag g fc proxg proxfc A AH hg hfc γp γd θ0 s hτ hσ he).mp hfix
+  have hsad' : IsSaddle g fc A AH s'.x s'.u := by rw [hx, hu]; exact hsad
+  have := (pdhg_fixed_point_iff_saddle_diag g fc proxg proxfc A AH hg hfc γp γd θ0 s' hτ' hσ' hxe').mpr hsad'
+  exact ⟨this.1, this.2.1, hsad'⟩
+
+set_option linter.unusedTactic false in
+set_option linter.unreachableTactic false in
+/-- the residual NewtonsMethod feeds to `_done` is `<= 0` only if `lamda2 <= 0`
+    (generated formula: `lamda2 ** 0.5`; the proof also covers the variant without the root) -/
+theorem newtonResid_nonpos (l : ℝ) (h : Gen.C15.newtonResid Real.sqrt l ≤ 0) : l ≤ 0 := by
+  unfold Gen.C15.newtonResid at h
+  first
+    | exact Real.sqrt_eq_zero'.mp (le_antisymm h (Real.sqrt_nonneg _))
+    | exact h
+
+theorem newtonUpdateLS_eq (gradf : E → E) (invH : E → E → E) (f : E → ℝ) (β : ℝ) (fuel : ℕ) (x : E) :
+    newtonUpdateLS (nOps E) (fun a b => inner ℝ a b) gradf invH f β fuel x =
+      if β < 1 then
+        (newtonLoop (nOps E) f β (-(inner ℝ (-(1 : ℝ) • invH x (gradf x)) (gradf x))) (f x) x
+          (-(1 : ℝ) • invH x (gradf x)) fuel 1 (x + -(1 : ℝ) • invH x (gradf x))).map
+          fun r => (r.2, -(inner ℝ (-(1 : ℝ) • invH x (gradf x)) (gradf x)), r.1)
+      else some (x + -(1 : ℝ) • invH x (gradf x), -(inner ℝ (-(1 : ℝ) • invH x (gradf x)) (gradf x)), 1) := rfl
+
+/-- every `x_new` the backtracking loop can return for the zero direction is `x` -/
+theorem newtonLoop_zero_dir (f : E → ℝ) (β l fx : ℝ) (x : E) (n : ℕ) :
+    ∀ (a : ℝ) (r : ℝ × E), newtonLoop (nOps E) f β l fx x 0 n a x = some r → r.2 = x := by
+  induction n with
+  | zero => intro a r hr; simp [newtonLoop] at hr
+  | succ n ih =>
+    intro a r hr
+    simp only [newtonLoop] at hr
+    split_ifs at hr
+    · have e : (nOps E).add x ((nOps E).smul (a * β) 0) = x := by simp [nOps]
+      rw [e] at hr
+      exact ih _ r hr
+    · simp only [Option.some.injEq] at hr; rw [← hr]
+
+/-- **NewtonsMethod with backtracking line search** (β < 1, or β ≥ 1: both branches): if the update ran (the loop
+    terminated) and `residual <= 0`, then `λ² = re⟪H⁻¹g, g⟫ <= 0`, so `g = 0` for a positive definite inverse
+    Hessian, the direction `p` is zero, and `x` is unchanged WHATEVER `α` the loop picked; the next `update()`
+    tests `f(x + p) = f(x) > f(x) - α/2·0` — false — so its loop exits at once (any fuel ≥ 1) and leaves `x`
+    unchanged again. -/
+theorem early_stop_fixed_newton_ls (gradf : E → E) (invH : E → E → E) (f : E → ℝ) (β : ℝ)
+    (hH : ∀ x g, inner ℝ (invH x g) g ≤ 0 → g = 0) (h0 : ∀ x, invH x 0 = 0) (x x' : E) (l α : ℝ) (fuel : ℕ)
+    (hrun : newtonUpdateLS (nOps E) (fun a b => inner ℝ a b) gradf invH f β fuel x = some (x', l, α))
+    (h : Gen.C15.newtonResid Real.sqrt l ≤ 0) :
+    x' = x ∧ ∀ fuel', 0 < fuel' →
+      newtonUpdateLS (nOps E) (fun a b => inner ℝ a b) gradf invH f β fuel' x' = some (x', 0, 1) := by
+  have hl := newtonResid_nonpos l h
+  rw [newtonUpdateLS_eq] at hrun
+  have hlam : l = -(inner ℝ (-(1 : ℝ) • invH x (gradf x)) (gradf x)) := by
+    split_ifs at hrun
+    · simp only [Option.map_eq_some_iff] at hrun
+      obtain ⟨r, _, hr⟩ := hrun
+      exact (congrArg (fun t => t.2.1) hr).symm
+    · simp only [Option.some.injEq, Prod.mk.injEq] at hrun
+      exact hrun.2.1.symm
+  have hg : gradf x = 0 := hH x _ (by rw [hlam] at hl; simpa [inner_smul_left] using hl)
+  -- one update at a point with zero gradient: the loop exits immediately
+  have key : ∀ y, gradf y = 0 → ∀ fuel', 0 < fuel' →
+      newtonUpdateLS (nOps E) (fun a b => inner ℝ a b) gradf invH f β fuel' y = some (y, 0, 1) := by
+    intro y hy fuel' hf
+    obtain ⟨k, rfl⟩ := Nat.exists_eq_succ_of_ne_zero hf.ne'
+    rw [newtonUpdateLS_eq, hy, h0]
+    split_ifs
+    · simp [newtonLoop]
+    · simp
+  have hx' : x' = x := by
+    rw [hg, h0] at hrun
+    simp only [smul_zero, add_zero] at hrun
+    split_ifs at hrun
+    · simp only [Option.map_eq_some_iff] at hrun
+      obtain ⟨r, hr1, hr2⟩ := hrun
+      have hx2 : r.2 = x' := congrArg (fun t => t.1) hr2
+      rw [← hx2]
+      exact newtonLoop_zero_dir f β _ _ x fuel 1 r hr1
+    · simp only [Option.some.injEq, Prod.mk.injEq] at hrun
+      exact hrun.1.symm
+  refine ⟨hx', ?_⟩
+  rw [hx']
+  exact key x hg
+
+/-! non-vacuity -/
+
+/-- the positive-definiteness hypotheses of `early_stop_fixed_newton_ls` hold for `H⁻¹ = id` -/
+example : (∀ x g : ℝ, inner ℝ ((fun _ g => g) x g) g ≤ 0 → g = 0) ∧ (∀ x : ℝ, (fun (_ : ℝ) (g : ℝ) => g) x 0 = 0) := by
+  refine ⟨fun x g h => ?_, fun _ => rfl⟩
+  simpa using h
+
+/-- an accelerated (`γ_primal = 1`) update from a saddle point of `g = f* = 0`, `A = id` on `ℝ` with steps
+    `τ = σ = 1`: the residual is `0`, so `early_stop_fixed_pdhg_general` applies (its hypotheses are jointly
+    satisfiable) -/
+example : (pdhgUpdateG Real.sqrt wn wn (id : ℝ → ℝ) id (fun _ v => v) (fun _ v => v) 1 0 1
+    (⟨0, 0, 0, StepOp.scalar 1, StepOp.scalar 1, 1, 1⟩ : PDState ℝ ℝ ℝ (StepOp ℝ) (StepOp ℝ))).2 ≤ 0 := by
+  simp [pdhgUpdateG, pdStep, Gen.C15.pdResid2, Gen.C15.pdResidDual2, Gen.C15.pdXExtDiff, Gen.C13.pdXDiff,
+    Gen.C13.pdPrimalProx, Gen.C13.pdPrimalArg, Gen.C13.pdDualProx, Gen.C13.pdDualArg, Gen.C13.pdXOld, wn,
+    StepOp.smul_act]
+
+end general
+
 /-! ### the pinned (pre-fix) residuals do NOT have this property: exact witnesses over ℚ -/
 section witnesses
 
@@ -338,6 +531,14 @@ theorem gm_accel_x_only_not_fixed :
   simp only [gmUpdate, gmT, gmResidXOnly, qOps]
   norm_num
 
+
+/-- the backtracking loop really backtracks in the model: `f(x) = x²` with a deliberately too long direction
+    (`H⁻¹ = 2`), `β = 1/2`, from `x = 1`: `α = 1, 1/2` are rejected, `α = 1/4` is accepted at `x = 0`; `λ² = 8`. -/
+theorem newton_ls_backtracks :
+    newtonUpdateLS qOps (fun a b => a * b) (fun x => 2 * x) (fun _ g => 2 * g) (fun x => x * x) (1 / 2) 10 (1 : ℚ)
+      = some (0, 8, 1 / 4) := by
+  simp only [newtonUpdateLS, newtonLoop, qOps]
+  norm_num
 end witnesses
 
 /-! ### PowerMethod -/
